@@ -33,6 +33,11 @@ THEOREMS = [
     "Typedpy.C13.tuple_pair_equiv",
     "Typedpy.C13.counterexample_tuple_items_struct",
     "Typedpy.C13.counterexample_struct_first_nested",
+    "Typedpy.C13.elaborate_flatten",
+    "Typedpy.C13.flatten_equiv",
+    "Typedpy.C13.elabField_flatten",
+    "Typedpy.C13.flatten_example",
+    "Typedpy.C13.union_duplicate_collapses",
     "Typedpy.C13.equiv_example",
 ]
 RULE = ("class bodies of 1-3 fields; each field an abstract meaning tree (scalar / constrained field literal / bare or "
@@ -85,7 +90,7 @@ def pre_build():
 
 
 def cases(rng, tier):
-    return S.gen_cases(rng, tier, 480 if tier == "quick" else 2300)
+    return S.gen_cases(rng, tier, 420 if tier == "quick" else 2200)
 
 
 def search_cases(rng, tier):
